@@ -730,6 +730,7 @@ func (view *View) Offset(ctx context.Context, scope *ReferenceScope, clause pars
 	}
 
 	if view.RecordLen() <= view.offset {
+		view.offset = view.RecordLen()
 		view.RecordSet = RecordSet{}
 	} else {
 		newSet := view.RecordSet[view.offset:]
